@@ -23,7 +23,8 @@
 EXTENDS Naturals, Sequences, FiniteSets, TLC, Json
 
 Contexts == {"alone", "sum-right", "sum-left", "argument", "exponent", "numerator", "denominator", "sentence-end",
-             "in-parens", "in-set", "two-arguments", "expression-end"}
+             "in-parens", "in-set", "two-arguments", "expression-end",
+             "sum-after-open-fence", "sum-before-close-fence"}       \* ( N + x )  and  ( x + N ): a summand next to ONE fence is no list
 FencedList == {"in-parens", "in-set", "two-arguments"}
 
 IsD(c) == c = "d"
